@@ -334,3 +334,95 @@ def rule_builder_invalidate(ctx):
             r.ok(construct, sample={"method": name, "writes": sorted({w for _, w, _ in writes})[:3], "reset": "on every exit path"})
     r.floor(n, 3, "SparseOperatorBuilder methods that write terms or transform flags")
     return r
+
+
+def rule_transform_pipeline(ctx):
+    r = RuleResult(
+        "transform-pipeline",
+        "SparseOperatorBuilder._get_terms_final: pauli_decompose expands each operator of a term independently and then "
+        "sorts the factors by (register, label) — sound only if no site carries more than one operator, i.e. only directly "
+        "after `simplify`: on every path into the Pauli-decomposition step a simplify call has run unconditionally since the "
+        "last step that can produce several operators on one site (the raw terms, the Jordan-Wigner strings)",
+    )
+    cls = ctx.prog.cls(BUILDER, "SparseOperatorBuilder")
+    f = cls.methods.get("_get_terms_final")
+    if f is None:
+        raise AnalysisError("_get_terms_final not found")
+
+    def calls(st, name):
+        return any(isinstance(c, ast.Call) and (getattr(c.func, "id", None) or getattr(c.func, "attr", None)) == name for c in ast.walk(st))
+
+    # the statement list that holds the pipeline
+    pipeline = None
+    for n in ast.walk(f.node):
+        for fld in ("body", "orelse"):
+            lst = getattr(n, fld, None)
+            if isinstance(lst, list) and any(calls(st, "pauli_decompose") for st in lst) and any(calls(st, "simplify") or calls(st, "jordan_wigner_transform") for st in lst):
+                pipeline = lst
+    if pipeline is None:
+        raise AnalysisError("_get_terms_final: transformation pipeline not found")
+    # abstract state: 'multi' (a site may carry several operators) / 'single'
+    state = "multi"  # raw user terms
+    ok = True
+    for st in pipeline:
+        is_if = isinstance(st, ast.If)
+        if calls(st, "pauli_decompose"):
+            if state != "single":
+                ok = False
+                r.bad(Finding("transform-pipeline", "SparseOperatorBuilder._get_terms_final",
+                              f"pauli_decompose (line {st.lineno}) can run on terms that were not simplified since they could last hold several operators on one site: "
+                              "its (register, label) sort then reorders non-commuting same-site operators", where=f"{f.module.relpath}:{st.lineno}", operand="decompose-unsimplified"))
+            state = "single" if not is_if else state  # decomposition yields one Pauli per site; conditional -> unchanged in the other arm
+            continue
+        if is_if:
+            # conditional step: a simplify inside only helps on that arm; a JW inside makes the state 'multi' on that arm
+            if calls(st, "jordan_wigner_transform") and not _ends_with_simplify(st.body, calls):
+                state = "multi"
+            elif calls(st, "simplify") and not calls(st, "jordan_wigner_transform"):
+                pass  # conditional simplify does not establish 'single' on the other arm
+            continue
+        if calls(st, "simplify"):
+            state = "single"
+        elif calls(st, "jordan_wigner_transform"):
+            state = "multi"
+    if ok:
+        r.ok("SparseOperatorBuilder._get_terms_final", sample={"pipeline": [("simplify" if calls(st, "simplify") else "jordan_wigner" if calls(st, "jordan_wigner_transform") else "pauli_decompose" if calls(st, "pauli_decompose") else "-") + ("?" if isinstance(st, ast.If) else "") for st in pipeline]})
+    return r
+
+
+def _ends_with_simplify(body, calls):
+    return bool(body) and calls(body[-1], "simplify")
+
+
+def rule_blocked_per_call(ctx):
+    r = RuleResult(
+        "blocked-per-call",
+        "sibling agreement between the matrix route (build_coo_data) and the matrix-free route (matvec): the `blocked` flag of "
+        "the coupling map is derived from the symmetry code resolved for *this call* (second result of get_sector_numba), in "
+        "both — a route that consults the Hilbert space's default symmetry instead enumerates configurations in the other "
+        "ordering whenever a sector is supplied per call",
+    )
+    cls = ctx.prog.cls(BUILDER, "SparseOperatorBuilder")
+    n = 0
+    for name, f in sorted(cls.methods.items()):
+        if f.is_alias or isinstance(f.node, ast.Lambda):
+            continue
+        sect = None
+        for a in ast.walk(f.node):
+            if isinstance(a, ast.Assign) and isinstance(a.value, ast.Call) and getattr(a.value.func, "attr", None) == "get_sector_numba" and isinstance(a.targets[0], ast.Tuple) and len(a.targets[0].elts) == 2:
+                sect = [e.id if isinstance(e, ast.Name) else None for e in a.targets[0].elts]
+        for c in ast.walk(f.node):
+            if isinstance(c, ast.Call) and getattr(c.func, "attr", None) == "get_coupling_map":
+                bl = next((k.value for k in c.keywords if k.arg == "blocked"), None)
+                if bl is None:
+                    continue
+                n += 1
+                names = {x.id for x in ast.walk(bl) if isinstance(x, ast.Name)}
+                construct = f"SparseOperatorBuilder.{name}"
+                if sect and sect[1] in names:
+                    r.ok(construct, sample={"route": name, "blocked": src_of(bl), "resolved symmetry": sect[1]})
+                else:
+                    r.bad(Finding("blocked-per-call", construct, f"`blocked={src_of(bl)}` does not depend on the symmetry resolved for this call ({sect[1] if sect else 'get_sector_numba result'})",
+                                  where=f"{f.module.relpath}:{c.lineno}", operand="blocked"))
+    r.floor(n, 2, "coupling-map requests with a blocked flag")
+    return r
